@@ -16,3 +16,6 @@ for _p in ("C06", "C07", "C08"):
 import checks_heur
 for _p in ("C16", "C17", "C18"):
     CHECKS[_p] = checks_heur.run
+import checks_tuner
+for _p in ("C19", "C20"):
+    CHECKS[_p] = checks_tuner.run
